@@ -10,9 +10,16 @@ mis-binding is visible in the result, and raises when a received string starts w
 
 Three independent oracles are used: (1) a binding model written here (model_bind), (2) the direct call f(*a, **k),
 (3) inspect.getcallargs / inspect.getfullargspec.  (1) and (2)/(3) must agree or the harness is broken (exit 2).
+
+Round-4 generalisation (bug classes 11-20 of tools/BUILDER_BRIEF.md): sub-check `session` (several calls on ONE wrapper whose argument lists are
+prefixes / extensions / permutations of one another, the caller's argument containers built once), sessions in try_fallback, one decorator object on
+two functions, getcallargs' dict handed to call_with_callargs twice, container defaults, pd2np(exc=..), sequences as fallback values, dicts keyed by
+numbers only, undeclared keywords travelling with a raising call. INCLUDE_MIXED_KEY_DICTS guards a genuine defect (see ASSUMPTIONS).
 """
 import inspect
 import itertools
+import json
+import os
 
 from hypothesis import strategies as st
 
@@ -24,10 +31,21 @@ ASSUMPTIONS = [
     'function,value,exc,cache,types,repeat (spelled like wrapper / getcallargs parameters), k000..k299 (never "axis": loops pops an "axis" keyword by design, never "self")',
     'a keyword named "function" is an ordinary keyword for **vk functions, also in direct getcallargs / call_with_callargs calls (finding F20, '
     'fixed: getcallargs takes the function positionally, as inspect.getcallargs does); replay replays/C18/F20-*.json',
-    'defaults are the strings Da..Dd, or None/0/\'\'/False, or (same_code) drawn from None,0,1,\'\',D,E,False,[],[1]',
-    'argument values: ints (no bools), strings, None, lists of ints, dicts str->int - a universe on which the cache key normalisation '
-    'is injective (no list/tuple twins, no 1/1.0/True, no sets; ints include -1, -2 and n + 2**61-1, whose python hashes collide but which are distinct values); the empty dict is kept out of cache histories because cache keys '
-    '{} and [] alike (same normalisation as the documented list/tuple twin)',
+    'defaults are the strings Da..Dd, or None/0/\'\'/False, or containers (a fifth of the signatures with defaults: tuple as long as the parameter list, list as long as the defaults, '
+    'dict keyed like the parameters / like extra keywords, empty tuple / list / dict, one element), or (same_code) drawn from None,0,1,\'\',D,E,False,[],[1],(1,2),{a:1},()',
+    'no keyword-only parameters and no annotations: the statement and its quantifier list positional parameters, trailing defaults, *args and **kwargs '
+    '(call_with_callargs does not pass keyword-only parameters on)',
+    'argument values: ints (no bools), strings, None, lists / tuples of ints, dicts str->int, one level of nesting, dicts keyed by numbers only ({1:1,2:2}, {2**53+1:1, 2.0**53:2}, {-1:1,-2:2,0:3}) - '
+    'a universe on which "distinct combination of arguments" is unambiguous: no 1/1.0/True (one dict key in python, documented as not-a-defect in DESIGN section 4), no numpy scalars, no NaN, no sets; '
+    'ints include -1, -2 and n + 2**61-1, whose python hashes collide but which are distinct values; since fix F27 a list, a tuple and a dict of the same content ([] / () / {}) '
+    'are distinct arguments and ARE paired in cached histories (the former restriction is lifted)',
+    'GENUINE DEFECT kept behind INCLUDE_MIXED_KEY_DICTS (env PV_C18_INCLUDE_MIXED_KEY_DICTS=1): a dict argument whose keys cannot be ordered among themselves ({1: "a", "b": 2}, {None: 1, "k": 2}) '
+    'written in another insertion order is the same argument, but cache(f) evaluates f again: _cache._items falls back to the insertion order when sorted() raises TypeError (src/pyg_base/_cache.py:7-11)',
+    'a cache layer is held to "as passed" counts only where it sees the arguments as passed: in sessions with a loops layer above the cache layer (loops hands the first argument on positionally) '
+    'results are checked but evaluations are not counted; under any cache layer a repeated combination returns the FIRST result, i.e. the report with the extra keywords in the order of the first call',
+    'pd2np(exc = ..) names declared parameters, a name that is never passed, or the only extra keyword of a call: excluded keywords are handed on after the others by design, '
+    'which would change the order in which two extra keywords reach **vk (the order is part of what f reports)',
+    'sessions with shared argument objects judge later calls by the ORIGINAL content of the containers; the statement does not say that arguments stay unchanged, so nothing else is asserted about them',
     'loop(list,tuple,dict) is judged only on calls whose first argument (first positional, else the first declared parameter by keyword) '
     'is not a list/tuple/dict ("loops on non-container input"); a first parameter left to a list default counts as a container, '
     'because call_with_callargs passes defaults positionally',
@@ -265,7 +283,8 @@ def same(x, y):
     if isinstance(x, (list, tuple)):
         return len(x) == len(y) and all(same(a, b) for a, b in zip(x, y))
     if isinstance(x, dict):
-        return sorted(x) == sorted(y) and all(same(x[k], y[k]) for k in x)
+        # keys are compared type-strictly too and need not be sortable (1 and 'b' in one dict)
+        return len(x) == len(y) and set((type(k).__name__, k) for k in x) == set((type(k).__name__, k) for k in y) and all(same(x[k], y[k]) for k in x)
     if isinstance(x, float):
         return x == y or (x != x and y != y)
     return x == y
@@ -278,6 +297,30 @@ def bvals(args, kwargs):
 
 def is_container_spec(v):
     return isinstance(v, list)
+
+
+# genuine defect (see ASSUMPTIONS): a dict argument whose keys cannot be ordered (1 and 'b', None and 'k') is keyed by insertion order
+INCLUDE_MIXED_KEY_DICTS = os.environ.get('PV_C18_INCLUDE_MIXED_KEY_DICTS', '') == '1'
+
+# dict arguments whose keys are numbers only (an int beyond 2**53 next to the float it rounds to; -1 / -2), and - behind the switch - keys of mixed types
+NUMBER_KEYED = [['dict', [[1, 1], [2, 2]]], ['dict', [[2 ** 53 + 1, 1], [float(2 ** 53), 2]]], ['dict', [[-1, 1], [-2, 2], [0, 3]]], ['dict', [[3, 0]]]]
+MIXED_KEYED = [['dict', [[1, 'a'], ['b', 2]]], ['dict', [[None, 1], ['k', 2]]]]
+
+
+def ksorted(pairs):
+    """(key, x) pairs in a canonical order that does not need the keys to be comparable with one another"""
+    return sorted(pairs, key=lambda kv: (type(kv[0]).__name__, repr(kv[0])))
+
+
+def reordered(v):
+    """the same dict written in the reverse insertion order (the SAME argument), None if v is not a dict of >= 2 items"""
+    if _is_tagged(v, 'dict') and len(v[1]) >= 2:
+        return ['dict', [list(kv) for kv in v[1][::-1]]]
+    return None
+
+
+def number_keyed(v):
+    return _is_tagged(v, 'dict') and len(v[1]) > 0 and all(isinstance(k, (int, float)) for k, _ in v[1])
 
 
 M61 = 2 ** 61 - 1     # CPython: hash(n) == hash(n + k * M61) for ints, and hash(-1) == hash(-2)
@@ -378,6 +421,21 @@ def check_twin_calls(what, w, s, args, kwargs, ret, log, n0, evals, cls):
             cls.append('container_twin_arguments')
             cls.append(twin_label(v, kind))
             cls.append('container_twin:' + where)
+    if any(reordered(v) is not None for v in list(args) + [v for _, v in kwargs]):
+        # every dict argument written in the reverse insertion order: the same arguments
+        rargs = [reordered(v) or v for v in args]
+        rkwargs = [[k, reordered(v) or v] for k, v in kwargs]
+        rexp = apply_ret(ret, expected(s, args, kwargs)[0])
+        a, k = bvals(rargs, rkwargs)
+        r = call('%s for %s' % (what, call_text(s, rargs, rkwargs)), w, *a, **k)
+        check(len(log) - n0 == evals, '%s for %s, called after %s: the same arguments (a dict written in another insertion order), but f was evaluated again (%s evaluations for %s distinct argument combinations)',
+              what, call_text(s, rargs, rkwargs), first, len(log) - n0, evals)
+        check(same(r, rexp), '%s for %s (called after %s) returned %s, the first result was %s', what, call_text(s, rargs, rkwargs), first, r, rexp)
+        cls.append('dict_argument_in_other_insertion_order')
+        if any(number_keyed(v) and reordered(v) is not None for v in list(args) + [v for _, v in kwargs]):
+            cls.append('number_keyed_dict_in_other_insertion_order')
+        if any(v in MIXED_KEYED for v in list(args) + [v for _, v in kwargs]):
+            cls.append('mixed_key_dict_in_other_insertion_order')
     return evals
 
 
@@ -404,6 +462,13 @@ def first_arg(s, args, kwargs):
             if k == pnames(s)[0]:
                 return True, v
     return False, None
+
+
+def relied_defaults(s, args, kwargs):
+    """value specs of the defaults a valid call relies on"""
+    n, d, va, vk = _sig(s)
+    given = set(pnames(s)[:len(args)]) | set(k for k, _ in kwargs)
+    return [default_spec(s, i) for i in range(n - d, n) if pnames(s)[i] not in given]
 
 
 def has_extra_kw(s, kwargs):
@@ -434,6 +499,10 @@ def deco(name):
     return getattr(pyg_base, name)
 
 
+def as_names(exc):
+    return [exc] if isinstance(exc, str) else list(exc)
+
+
 def fallback_of(name):
     return {'try_none': None, 'try_nan': float('nan'), 'try_zero': 0, 'try_true': True, 'try_false': False, 'try_list': []}[name]
 
@@ -445,13 +514,21 @@ def stack_text(stack):
 TWO_STEP = ['try_none', 'try_back', 'kwargs_support', 'pd2np']     # classes: D()(f) is the parameterised spelling of D(f)
 
 
-def wrap(stack, f, decos=None, two_step=False):
-    """stack[0] is the outermost decorator; two_step: class decorators are applied as D()(f) instead of D(f)"""
+def wrap(stack, f, decos=None, two_step=False, made=None):
+    """
+    stack[0] is the outermost decorator; two_step: class decorators are applied as D()(f) instead of D(f); with a dict `made` the decorator
+    object D() is built once per name and the SAME object is applied wherever that name occurs (to other functions too)
+    """
     w = f
     for i in range(len(stack) - 1, -1, -1):
         d = decos[stack[i]] if decos else deco(stack[i])
-        if two_step and stack[i] in TWO_STEP:
-            d = call('%s()' % stack[i], d)
+        if two_step and stack[i] in TWO_STEP and isinstance(d, type):
+            if made is None:
+                d = call('%s()' % stack[i], d)
+            else:
+                if stack[i] not in made:
+                    made[stack[i]] = call('%s()' % stack[i], d)
+                d = made[stack[i]]
         w = call('%s' % stack_text(stack[i:]), d, w)
     return w
 
@@ -495,8 +572,11 @@ def check_argspec(what, w, f):
         check(type(g) is type(e) and g == e, 'getargspec(%s).%s = %s but f(%s) has %s', what, fld, g, inspect.signature(f), e)
 
 
-def check_binding(what, w, f, s, args, kwargs, exp, callargs):
-    """getcallargs(w, ...) == inspect.getcallargs(f, ...) and call_with_callargs(w, that) == f(...)"""
+def check_binding(what, w, f, s, args, kwargs, exp, callargs, alts=()):
+    """
+    getcallargs(w, ...) == inspect.getcallargs(f, ...) and call_with_callargs(w, that) == f(...) (alts: further acceptable results - under a cache layer
+    an earlier call with the same arguments, whose extra keywords came in another order, decides the result)
+    """
     from pyg_base import getcallargs, call_with_callargs
     a, k = bvals(args, kwargs)
     ic = inspect.getcallargs(f, *a, **k)
@@ -506,7 +586,12 @@ def check_binding(what, w, f, s, args, kwargs, exp, callargs):
     gc = call('getcallargs(%s, ...) for %s' % (what, call_text(s, args, kwargs)), getcallargs, w, *a, **k)
     check(same(gc, ic), 'getcallargs(%s, ...) for %s = %s but inspect.getcallargs says %s', what, call_text(s, args, kwargs), gc, ic)
     r = call('call_with_callargs(%s, getcallargs(...)) for %s' % (what, call_text(s, args, kwargs)), call_with_callargs, w, gc)
-    check(same(r, exp), 'call_with_callargs(%s, getcallargs(...)) for %s returned %s, the direct call returns %s', what, call_text(s, args, kwargs), r, exp)
+    check(same(r, exp) or any(same(r, e) for e in alts), 'call_with_callargs(%s, getcallargs(...)) for %s returned %s, the direct call returns %s', what, call_text(s, args, kwargs), r, exp)
+    # the caller's own dict, handed over a second time: judged by what getcallargs put into it
+    r = call('ca = getcallargs(%s, ...); call_with_callargs(%s, ca); call_with_callargs(%s, ca) [the same dict again] for %s' % (what, what, what, call_text(s, args, kwargs)),
+             call_with_callargs, w, gc)
+    check(same(r, exp) or any(same(r, e) for e in alts), 'ca = getcallargs(%s, ...) for %s: the second call_with_callargs(%s, ca) with the same dict returned %s, the direct call returns %s (ca is now %s, inspect.getcallargs says %s)',
+          what, call_text(s, args, kwargs), what, r, exp, gc, ic)
 
 
 def callargs_built(callargs):
@@ -555,7 +640,9 @@ _cont2 = st.one_of(
     st.tuples(st.sampled_from(['list', 'tuple']), st.lists(_ints, max_size=2)).map(lambda t: ['dict', [['k', [t[0], t[1]]]]]),
     st.sampled_from([['list', []], ['tuple', []], ['dict', []]]),
 )
-_val = st.one_of(_scal, _scal, _cont, _cont2)
+# dicts keyed by numbers only (and, behind the switch, by keys of mixed types)
+_cont3 = st.sampled_from(NUMBER_KEYED + (MIXED_KEYED if INCLUDE_MIXED_KEY_DICTS else []))
+_val = st.one_of(_scal, _scal, _cont, _cont2, _scal, _scal, _cont, _cont2, _cont3)
 
 
 @st.composite
@@ -567,7 +654,21 @@ def s_sig(draw, vk=None, min_n=0):
         s['nm'] = 1       # names that are prefixes of one another
     if draw(st.sampled_from([False, False, True])):
         s['dv'] = 1       # defaults None / 0 / '' / False
+    if d and draw(st.sampled_from([False, False, False, False, True])):
+        # defaults that are containers: as long as the parameter list / the defaults, keyed like the parameters or like extra keywords, empty, one element
+        s['dvals'] = [draw(st.sampled_from(container_defaults(s))) for _ in range(d)]
     return s
+
+
+def container_defaults(s):
+    n, d, va, vk = _sig(s)
+    nms = pnames(s)
+    return [['tuple', list(range(n))], ['list', list(range(d))], ['dict', [[nm, i] for i, nm in enumerate(nms)]], ['dict', [[nm, i] for i, nm in enumerate(extra_names(s)[:2])]],
+            ['tuple', []], ['list', []], ['dict', []], ['tuple', [0]], ['list', [None]], ['tuple', [['list', []]]], 'D']
+
+
+def has_container_default(s):
+    return any(_is_tagged(v) for v in s.get('dvals', []))
 
 
 @st.composite
@@ -640,8 +741,30 @@ def s_transparent(draw):
         if all(admissible(nm, s2, a2, k2) for nm in stack):
             spec['other'] = dict(sig=s2, args=a2, kwargs=k2)
     if any(nm in TWO_STEP for nm in stack) and draw(st.booleans()):
-        spec['two_step'] = True
+        # True: a fresh D() per application; 'shared': ONE decorator object D() per class, applied to every function of the case
+        spec['two_step'] = draw(st.sampled_from([True, 'shared']))
+    if 'pd2np' in stack and draw(st.sampled_from([False, True])):
+        # the optional parameter of pd2np: names excluded from the conversion, as one string or as a list of 0-2 strings
+        spec['pd2np_exc'] = draw(s_exc([c for c in (spec, spec.get('other')) if c]))
     return spec
+
+
+@st.composite
+def s_exc(draw, cases):
+    """
+    pd2np(exc = ...): a declared parameter, a name that is never passed, or an extra keyword of a call that has only that one
+    (excluded keywords are handed on last, so two extra keywords would reach **vk in another order); one string, or a list of 0-2 strings
+    """
+    def extras(c):
+        return [k for k, _ in c['kwargs'] if k not in pnames(c['sig'])]
+    cand = ['q']
+    for c in cases:
+        cand += pnames(c['sig']) + extras(c)
+    names = sorted(set(x for x in cand if all(x not in extras(c) or len(extras(c)) == 1 for c in cases)))
+    form = draw(st.sampled_from(['str', 'list0', 'list1', 'list2']))
+    if form == 'str':
+        return draw(st.sampled_from(names))
+    return draw(st.lists(st.sampled_from(names), min_size=int(form[-1]), max_size=int(form[-1]), unique=True)) if len(set(names)) >= int(form[-1]) else []
 
 
 def run_transparent(spec):
@@ -654,6 +777,26 @@ def run_transparent(spec):
     nt = False
     ret = spec.get('ret')
     cached = 'cache' in stack
+    what = stack_text(stack)
+    if 'pd2np_exc' in spec:
+        import pyg_base
+        exc = spec['pd2np_exc']
+        if 'pd2np' not in stack:
+            raise HarnessError('pd2np_exc without pd2np')
+        decos['pd2np'] = call('pd2np(exc = %r)' % (exc,), pyg_base.pd2np, exc=exc)
+        what = what.replace('pd2np(', 'pd2np(exc = %r)(' % (exc,))
+        cls.append('pd2np_exc')
+        cls.append('pd2np_exc:' + ('string' if isinstance(exc, str) else 'list_of_%i' % len(exc)))
+    made = {} if spec.get('two_step') == 'shared' else None
+    prebuilt = {}
+    if made is not None and spec.get('other') is not None:
+        # one decorator object per class on two functions: both wrappers exist before either is called
+        for which, c in (('f', spec), ('g', spec['other'])):
+            lg = []
+            fn = make_fn(c['sig'], lg, ret=ret)
+            prebuilt[which] = (lg, fn, wrap(stack, fn, decos, two_step=True, made=made))
+        if any(nm in TWO_STEP and isinstance(decos[nm], type) for nm in stack):
+            cls.append('one_decorator_object_on_two_functions')
     if ret is not None:
         cls.append('f_returns_None' if ret[1] is None else 'f_returns_falsy')
         if cached:
@@ -664,11 +807,16 @@ def run_transparent(spec):
         s, args, kwargs = c['sig'], c['args'], c['kwargs']
         exp, callargs, nkw, ndef = expected(s, args, kwargs)
         exp = apply_ret(ret, exp)
-        log = []
-        f = make_fn(s, log, ret=ret)
-        direct(f, s, args, kwargs, exp)
-        what = stack_text(stack)
-        w = wrap(stack, f, decos, two_step=bool(spec.get('two_step')))
+        if which in prebuilt:
+            log, f, w = prebuilt[which]
+            direct(f, s, args, kwargs, exp)
+        else:
+            log = []
+            f = make_fn(s, log, ret=ret)
+            direct(f, s, args, kwargs, exp)
+            w = wrap(stack, f, decos, two_step=bool(spec.get('two_step')), made=made)
+        if 'pd2np_exc' in spec and any(k in as_names(spec['pd2np_exc']) for k, _ in kwargs):
+            cls.append('pd2np_excluded_keyword_passed')
         # the signature, asked before and after a call (the wrapper caches it)
         check_argspec(what, w, f)
         a, k = bvals(args, kwargs)
@@ -701,9 +849,242 @@ def run_transparent(spec):
             cls.append('keyword_named_function')
         if len([k for k, _ in kwargs if k not in pnames(s)]) >= 2:
             cls.append('two_extra_keywords_in_order')
+        if has_container_default(s):
+            cls.append('container_default')
+            if any(_is_tagged(v) for v in relied_defaults(s, args, kwargs)):
+                cls.append('container_default_relied_on')
     if spec.get('two_step'):
         cls.append('two_step_spelling')
     return dict(nt=nt, cls=cls)
+
+
+# ----------------------------------------------------------------------------- sub-check: sessions (several calls on ONE wrapper)
+
+SESSION_KINDS = ['same', 'permuted', 'prefix', 'prefix', 'extension', 'extension', 'resplit', 'values', 'fresh']
+
+
+def _supplied(s, args, kwargs):
+    """names of the declared parameters a call supplies"""
+    return set(pnames(s)[:len(args)]) | set(k for k, _ in kwargs if k in pnames(s))
+
+
+@st.composite
+def s_derive(draw, s, args, kwargs, kind, keep_first):
+    """a valid call derived from the valid call (args, kwargs): its prefix / extension / permutation / other split / other values"""
+    n, d, va, vk = _sig(s)
+    names = pnames(s)
+    args, kwargs = list(args), [list(kv) for kv in kwargs]
+    given = [k for k, _ in kwargs]
+    if kind == 'permuted':
+        kwargs = list(draw(st.permutations(kwargs)))
+    elif kind == 'prefix':
+        extras = [i for i, kv in enumerate(kwargs) if kv[0] not in names]
+        dflt = [i for i, kv in enumerate(kwargs) if kv[0] in names and names.index(kv[0]) >= n - d and not (keep_first and kv[0] == names[0])]
+        opts = (['va'] if len(args) > n else []) + (['xkw'] if extras else []) + (['kw'] if dflt else [])
+        if 0 < len(args) <= n and len(args) - 1 >= n - d and not (keep_first and len(args) == 1):
+            opts.append('pos')
+        what = draw(st.sampled_from(opts)) if opts else None
+        if what in ('va', 'pos'):
+            args.pop()
+        elif what == 'xkw':
+            kwargs.pop(draw(st.sampled_from(extras)))
+        elif what == 'kw':
+            kwargs.pop(draw(st.sampled_from(dflt)))
+    elif kind == 'extension':
+        missing = [nm for i, nm in enumerate(names) if i >= len(args) and nm not in given]
+        free = [x for x in extra_names(s) if x not in given]
+        opts = (['fill'] if missing else []) + (['va'] if va and len(args) >= n else []) + (['xkw'] if vk and free else [])
+        what = draw(st.sampled_from(opts)) if opts else None
+        if what == 'fill':
+            nm = draw(st.sampled_from(missing))
+            if nm == names[len(args)] and draw(st.booleans()):
+                args.append(draw(_val))
+            else:
+                kwargs.insert(draw(st.integers(0, len(kwargs))), [nm, draw(_val)])
+        elif what == 'va':
+            args.append(draw(_val))
+        elif what == 'xkw':
+            kwargs.insert(draw(st.integers(0, len(kwargs))), [draw(st.sampled_from(free)), draw(_val)])
+    elif kind == 'resplit':
+        if 0 < len(args) <= n and draw(st.booleans()):
+            kwargs.insert(draw(st.integers(0, len(kwargs))), [names[len(args) - 1], args.pop()])
+        elif len(args) < n and names[len(args)] in given:
+            nm = names[len(args)]
+            args.append([v for k, v in kwargs if k == nm][0])
+            kwargs = [kv for kv in kwargs if kv[0] != nm]
+        elif 0 < len(args) <= n:
+            kwargs.insert(draw(st.integers(0, len(kwargs))), [names[len(args) - 1], args.pop()])
+    elif kind == 'values':
+        args = [draw(_val) for _ in args]
+        kwargs = [[k, draw(_val)] for k, _ in kwargs]
+    elif kind == 'fresh':
+        args, kwargs = draw(s_call(s, need_first=keep_first))
+        if keep_first and not first_arg(s, args, kwargs)[0] and _can_supply_first(s):
+            args = [draw(_scal)] + args
+    return args, kwargs
+
+
+def _scalar_first(s, args, kwargs, repl):
+    """the call with a container in the place of the first argument replaced by the scalar repl"""
+    args, kwargs = list(args), [list(kv) for kv in kwargs]
+    if len(args):
+        if is_container_spec(args[0]):
+            args[0] = repl
+    else:
+        for kv in kwargs:
+            if _sig(s)[0] and kv[0] == pnames(s)[0] and is_container_spec(kv[1]):
+                kv[1] = repl
+    return args, kwargs
+
+
+@st.composite
+def s_session(draw):
+    s = draw(s_sig())
+    keep_first = draw(st.booleans()) and _can_supply_first(s)
+    scalar_first = draw(st.booleans())
+    args, kwargs = draw(s_call(s, need_first=keep_first))
+    if keep_first and not first_arg(s, args, kwargs)[0]:
+        args = [draw(_scal)] + args
+    slots = [('a', i) for i in range(len(args))] + [('k', i) for i in range(len(kwargs))]
+    if len(slots) >= 2 and draw(st.sampled_from([False, False, True])):
+        # one container value in two places of the call (with shared objects: the same object passed twice)
+        (k1, i1), (k2, i2) = draw(st.permutations(slots))[:2]
+        v = draw(st.one_of(_cont, _cont2))
+        for kind, i in ((k1, i1), (k2, i2)):
+            if kind == 'a':
+                args[i] = v
+            else:
+                kwargs[i] = [kwargs[i][0], v]
+    calls = [['first', args, kwargs]]
+    for _ in range(draw(st.sampled_from([1, 2, 2, 3, 3]))):
+        kind = draw(st.sampled_from(SESSION_KINDS))
+        base = calls[draw(st.sampled_from([-1, -1, 0]))]
+        a2, k2 = draw(s_derive(s, base[1], base[2], kind, keep_first))
+        calls.append([kind, a2, k2])
+    if scalar_first:
+        repl = draw(_scal)
+        calls = [[kind] + list(_scalar_first(s, a, k, repl)) for kind, a, k in calls]
+    ok = [nm for nm in DECOS if all(admissible(nm, s, a, k) for _, a, k in calls)]
+    klasses = sorted(set(KLASS[nm] for nm in ok))
+    stack = []
+    for _ in range(draw(st.sampled_from([1, 1, 2, 2, 3]))):
+        c = draw(st.sampled_from(klasses))
+        stack.append(draw(st.sampled_from([nm for nm in ok if KLASS[nm] == c])))
+    spec = dict(sig=s, calls=calls, stack=stack, share=draw(st.sampled_from([True, True, False])),
+                bind=[draw(st.sampled_from([False, False, True])) for _ in calls], argspec=[draw(st.sampled_from([False, False, True])) for _ in calls])
+    if draw(st.sampled_from([False, False, False, True])):
+        spec['ret'] = ['by_first']
+    return spec
+
+
+def cache_key(args, kwargs):
+    """the combination of arguments as passed (value specs), as a hashable token"""
+    return (tuple(_tok(v) for v in args), tuple(sorted((k, _tok(v)) for k, v in kwargs)))
+
+
+def run_session(spec):
+    """
+    one function, one wrapper object, 2-4 calls whose argument lists are prefixes / extensions / permutations / other splits of one another; every
+    call is judged by the single-call oracle. With share, the caller's argument objects are built once and the same objects are passed in every call
+    (and in every place of a call) where the same value appears: later calls are judged by their original content.
+    """
+    s, calls, stack = spec['sig'], spec['calls'], spec['stack']
+    for nm in stack:
+        for _, a, k in calls:
+            if not admissible(nm, s, a, k):
+                raise HarnessError('%s is outside the claimed domain for %s' % (nm, call_text(s, a, k)))
+    share = bool(spec.get('share'))
+    ret = spec.get('ret')
+    decos = {nm: deco(nm) for nm in set(stack)}
+    log = []
+    f = make_fn(s, log, ret=ret)
+    what = stack_text(stack)
+    w = wrap(stack, f, decos)
+    # "arguments as passed" reach a cache layer unchanged unless a loops layer above it re-spells the first argument
+    counts = 'cache' in stack and 'loop' not in stack[:stack.index('cache')]
+    objs = {}
+
+    def bv(v):
+        if share and isinstance(v, list):
+            key = json.dumps(v)
+            if key not in objs:
+                objs[key] = build(v)
+            return objs[key]
+        return build(v)
+
+    known = {}          # combination of arguments as passed -> the first result
+    earlier = []        # results f gave so far
+    cached = 'cache' in stack
+
+    def novko(x):
+        return dict(x, vko=None) if isinstance(x, dict) and 'vko' in x else x
+
+    def alts(exp):
+        # under a cache layer that does not see the arguments as passed (a loops layer above it re-spells the first argument) an earlier call with the
+        # same binding decides the result: the same report, with the extra keywords in the order of that call
+        return [e for e in earlier if same(novko(e), novko(exp))] if cached else []
+    cls = ['calls=%i' % len(calls), 'depth=%i' % len(stack)] + sorted(set('has:' + KLASS[nm] for nm in stack))
+    done = []
+    twice = False
+    for i, (kind, args, kwargs) in enumerate(calls):
+        exp, callargs, nkw, ndef = expected(s, args, kwargs)
+        exp = apply_ret(ret, exp)
+        direct(f, s, args, kwargs, exp)
+        txt = call_text(s, args, kwargs)
+        after = '' if not done else ' (call %i on this wrapper, after %s)' % (i + 1, '; '.join(done))
+        if spec['argspec'][i]:
+            check_argspec(what, w, f)
+        a = [bv(v) for v in args]
+        k = {kk: bv(v) for kk, v in kwargs}
+        cont = [x for x in a + list(k.values()) if isinstance(x, (list, tuple, dict))]
+        if len(set(id(x) for x in cont)) < len(cont):
+            twice = True
+        n0 = len(log)
+        r = call('%s for %s%s' % (what, txt, after), w, *a, **k)
+        if counts:
+            key = cache_key(args, kwargs)
+            want = 0 if key in known else 1
+            check(len(log) - n0 == want, '%s for %s%s: %s, f was evaluated %s times', what, txt, after,
+                  'these arguments were passed before' if key in known else 'first call with these arguments as passed', len(log) - n0)
+            first = known.setdefault(key, exp)
+            check(same(r, first), '%s for %s%s returned %s, %s %s', what, txt, after, r, 'f itself returns' if want else 'the first call with these arguments returned', first)
+        else:
+            check(same(r, exp) or any(same(r, e) for e in alts(exp)), '%s for %s%s returned %s, f itself returns %s', what, txt, after, r, exp)
+        earlier.append(exp)
+        if spec['bind'][i]:
+            n0 = len(log)
+            if counts:
+                # call_with_callargs passes every declared parameter positionally (defaults included) and the extra keywords by name
+                key = cache_key([callargs[nm] for nm in pnames(s)] + list(callargs.get('va', ())), sorted(callargs.get('vk', {}).items()))
+                want = 0 if key in known else 1
+                check_binding(what, w, f, s, args, kwargs, known.setdefault(key, exp), callargs)
+                check(len(log) - n0 == want, 'call_with_callargs(%s, getcallargs(...)) twice for %s%s: f was evaluated %s times, %s', what, txt, after, len(log) - n0,
+                      'all arguments were passed in that spelling before' if want == 0 else 'that spelling is new')
+            else:
+                check_binding(what, w, f, s, args, kwargs, exp, callargs, alts=alts(exp))
+            cls.append('binding_between_calls')
+        if i:
+            cls.append('kind:' + kind)
+            for pk, pa, pkw in calls[:i]:
+                if (_supplied(s, pa, pkw) - _supplied(s, args, kwargs)):
+                    cls.append('default_relied_on_after_a_call_that_supplied_it')
+                    if has_container_default(s) and any(_is_tagged(v) for v in relied_defaults(s, args, kwargs)):
+                        cls.append('container_default_relied_on_after_a_call_that_supplied_it')
+                if len(pa) > len(args) >= _sig(s)[0] and pa[:len(args)] == args:
+                    cls.append('fewer_varargs_than_an_earlier_call')
+                if set(kk for kk, _ in pkw) - set(pnames(s)) > set(kk for kk, _ in kwargs) - set(pnames(s)):
+                    cls.append('fewer_extra_keywords_than_an_earlier_call')
+        done.append(txt)
+    if share and objs:
+        cls.append('argument_objects_shared_between_calls')
+    if twice:
+        cls.append('same_object_passed_twice')
+    if counts:
+        cls.append('evaluations_counted')
+    if has_container_default(s):
+        cls.append('container_default')
+    distinct = len(set(json.dumps([a, k]) for _, a, k in calls))
+    return dict(nt=distinct >= 2, cls=sorted(set(cls)))
 
 
 # ----------------------------------------------------------------------------- sub-check: wrapping twice = wrapping once
@@ -877,6 +1258,47 @@ def s_try(draw):
     if name in TRY_VALUES and draw(st.booleans()):
         # the parameterised spelling of the same wrapper: try_value(value = fallback, verbose = .., repeat = ..)(f)
         spec['opts'] = dict(verbose=draw(st.sampled_from([True, True, False, None])), repeat=draw(st.sampled_from([0, 0, 1, 2])))
+        if draw(st.sampled_from([False, False, True])):
+            # a fallback value that is a sequence: of one element, empty, as long as the call's argument list, keyed like the parameters
+            nargs = len(args) + len(kwargs)
+            spec['value'] = draw(st.sampled_from([['list', [7]], ['tuple', [0]], ['tuple', []], ['list', list(range(nargs))], ['tuple', list(range(nargs))],
+                                                  ['dict', [[nm, i] for i, nm in enumerate(pnames(s))]], ['list', [['list', []]]], ['list', [None]]]))
+    if 'kwargs_support' not in stack and 'kwargs_support' in ok and len(stack) <= 2 and not vk and draw(st.sampled_from([False] * 9 + [True])):
+        stack.insert(draw(st.integers(0, len(stack))), 'kwargs_support')
+    if 'kwargs_support' in stack and not vk and draw(st.sampled_from([True, True, True, False])):
+        # keywords f does not declare, on their way to the kwargs_support layer (above or below the try layer)
+        names = [x for x in extra_names(s) + ['e', 'va'] if x not in pnames(s)]
+        spec['undeclared'] = [[nm, draw(_scal)] for nm in draw(st.lists(st.sampled_from(names), min_size=1, max_size=2, unique=True))]
+        spec['undeclared_at'] = draw(st.integers(0, len(kwargs)))
+    # further calls on the same wrapper object: the same call again, the call with the order to raise taken out / put in / changed
+    more = []
+    cur_a, cur_k = args, kwargs
+    for _ in range(draw(st.sampled_from([0, 0, 1, 2, 3]))):
+        op = draw(st.sampled_from(['again', 'flip', 'flip', 'other']))
+        a2, k2 = list(cur_a), [list(kv) for kv in cur_k]
+        slots = [('a', i) for i in range(len(a2))] + [('k', i) for i in range(len(k2))]
+        told_at = [(kind, i) for kind, i in slots if isinstance((a2[i] if kind == 'a' else k2[i][1]), str) and (a2[i] if kind == 'a' else k2[i][1]).startswith('!')]
+        if op == 'again' or not slots:
+            pass
+        elif told_at:
+            kind, i = told_at[0]
+            v = draw(_scal) if op == 'flip' else '!' + draw(st.sampled_from(sorted(EXC))) + draw(st.sampled_from(['', ':0', ':2', ':p']))
+            if kind == 'a':
+                a2[i] = v
+            else:
+                k2[i] = [k2[i][0], v]
+        elif name != 'try_back' or first_arg(s, a2, k2)[0]:
+            kind, i = draw(st.sampled_from(slots))
+            v = '!' + draw(st.sampled_from(sorted(EXC)))
+            if kind == 'a':
+                a2[i] = v
+            else:
+                k2[i] = [k2[i][0], v]
+        if all(admissible(nm, s, a2, k2) for nm in stack):
+            more.append([a2, k2])
+            cur_a, cur_k = a2, k2
+    if more:
+        spec['more'] = more
     return spec
 
 
@@ -903,69 +1325,100 @@ def _run_try(spec):
     if len(tries) != 1:
         raise HarnessError('try sub-check wants exactly one try layer: %r' % (stack,))
     name = tries[0]
-    for nm in stack:
-        if not admissible(nm, s, args, kwargs):
-            raise HarnessError('%s is outside the claimed domain for %s' % (nm, call_text(s, args, kwargs)))
-    if model_bind(s, args, kwargs) is None:
-        raise HarnessError('invalid call %s' % call_text(s, args, kwargs))
-    told = _told(args, kwargs)
+    undeclared = spec.get('undeclared') or []
+    if undeclared and ('kwargs_support' not in stack or _sig(s)[3] or any(k in pnames(s) for k, _ in undeclared)):
+        raise HarnessError('undeclared keywords need a kwargs_support layer and a function without **vk: %r' % (spec,))
     log = []
     f = make_fn(s, log)
-    a, k = bvals(args, kwargs)
-    try:
-        exp = f(*a, **k)
-        raised = None
-    except Exception as e:
-        exp, raised = None, e
-    if (raised is None) != (told is None) or (told is not None and not isinstance(raised, EXC[told])):
-        raise HarnessError('generated f does not obey: told %r, raised %r' % (told, raised))
     what = stack_text(stack)
     opts = spec.get('opts')
+    fb = None if name == 'try_back' else fallback_of(name)
+    if 'value' in spec:
+        if not opts:
+            raise HarnessError('a fallback value needs the parameterised spelling')
+        fb = build(spec['value'])
     if opts:
         import pyg_base
         decos = {nm: deco(nm) for nm in stack}
-        decos[name] = call('try_value(value = %r, **%r)' % (fallback_of(name), opts), pyg_base.try_value, value=fallback_of(name), **opts)
-        what = what.replace(name + '(', 'try_value(value = %r, verbose = %r, repeat = %r)(' % (fallback_of(name), opts['verbose'], opts['repeat']), 1)
+        decos[name] = call('try_value(value = %r, **%r)' % (fb, opts), pyg_base.try_value, value=build(spec['value']) if 'value' in spec else fallback_of(name), **opts)
+        what = what.replace(name + '(', 'try_value(value = %r, verbose = %r, repeat = %r)(' % (fb, opts['verbose'], opts['repeat']), 1)
         w = wrap(stack, f, decos)
-        check_argspec(what, w, f)
-        a, k = bvals(args, kwargs)
-        txt = call_text(s, args, kwargs)
-        r = call('%s for %s' % (what, txt), w, *a, **k)
     else:
         w = wrap(stack, f)
-        check_argspec(what, w, f)
+    check_argspec(what, w, f)
+    cls = [name, 'depth=%i' % len(stack)]
+    outcomes = []
+    done = []
+    for j, (args, kwargs) in enumerate([[args, kwargs]] + [list(c) for c in spec.get('more', [])]):
+        for nm in stack:
+            if not admissible(nm, s, args, kwargs):
+                raise HarnessError('%s is outside the claimed domain for %s' % (nm, call_text(s, args, kwargs)))
+        if model_bind(s, args, kwargs) is None:
+            raise HarnessError('invalid call %s' % call_text(s, args, kwargs))
+        told = _told(args, kwargs)
         a, k = bvals(args, kwargs)
-        txt = call_text(s, args, kwargs)
+        try:
+            exp = f(*a, **k)
+            raised = None
+        except Exception as e:
+            exp, raised = None, e
+        if (raised is None) != (told is None) or (told is not None and not isinstance(raised, EXC[told])):
+            raise HarnessError('generated f does not obey: told %r, raised %r' % (told, raised))
+        at = min(spec.get('undeclared_at', 0), len(kwargs))
+        passed = kwargs[:at] + undeclared + kwargs[at:]
+        txt = call_text(s, args, passed) + ('' if not done else ' (call %i on this wrapper, after %s)' % (j + 1, '; '.join(done)))
+        a, k = bvals(args, passed)
         r = call('%s for %s' % (what, txt), w, *a, **k)
-    if raised is None:
-        check(same(r, exp), '%s for %s: f does not raise and returns %s, but the wrapper returned %s', what, txt, exp, r)
-    elif name == 'try_back':
-        ok, v = first_arg(s, args, kwargs)
-        if not ok:
-            raise HarnessError('try_back fallback needs the first argument: %s' % txt)
-        check(same(r, build(v)), '%s for %s: f raises %s, try_back must return the first argument %s, returned %s', what, txt, told, build(v), r)
-    else:
-        fb = fallback_of(name)
-        check(same(r, fb), '%s for %s: f raises %s, the fallback is %s, returned %s', what, txt, told, fb, r)
-        if name == 'try_list' and 'cache' not in stack:
-            # the fallback is a copy: spoiling the returned list must not spoil the next fallback
-            r.append('spoiled')
-            a, k = bvals(args, kwargs)
-            r2 = call('%s for %s (second time)' % (what, txt), w, *a, **k)
-            check(same(r2, []), '%s for %s: second fallback is %s - the fallback value is shared, not copied', what, txt, r2)
-    cls = [name, 'raises' if raised is not None else 'returns', 'depth=%i' % len(stack)]
-    if raised is not None:
-        cls.append('exc:' + told)
-        cls.append('exception_args=%i' % len(raised.args))
-        if not len(args):
-            cls.append('raises_all_by_keyword')
-        if opts and opts['verbose']:
-            cls.append('verbose_wrapper_sees_exception')
-            if len(raised.args) != 1 or '%' in str(raised.args[0]):
-                cls.append('verbose_wrapper_sees_unusual_exception_args')
+        if raised is None:
+            check(same(r, exp), '%s for %s: f does not raise and returns %s, but the wrapper returned %s', what, txt, exp, r)
+        elif name == 'try_back':
+            ok, v = first_arg(s, args, kwargs)
+            if not ok:
+                raise HarnessError('try_back fallback needs the first argument: %s' % txt)
+            check(same(r, build(v)), '%s for %s: f raises %s, try_back must return the first argument %s, returned %s', what, txt, told, build(v), r)
+        else:
+            check(same(r, fb), '%s for %s: f raises %s, the fallback is %s, returned %s', what, txt, told, fb, r)
+            if isinstance(fb, (list, dict)) and 'cache' not in stack:
+                # the fallback is a copy: spoiling the returned list / dict must not spoil the next fallback
+                if isinstance(r, list):
+                    r.append('spoiled')
+                else:
+                    r['spoiled'] = 1
+                a, k = bvals(args, passed)
+                r2 = call('%s for %s (second time)' % (what, txt), w, *a, **k)
+                check(same(r2, fb), '%s for %s: second fallback is %s - the fallback value %s is shared, not copied', what, txt, r2, fb)
+        outcomes.append('raises' if raised is not None else 'returns')
+        done.append(call_text(s, args, passed))
+        if j == 0:
+            cls.append(outcomes[0])
+        if raised is not None:
+            cls.append('exc:' + told)
+            cls.append('exception_args=%i' % len(raised.args))
+            if not len(args):
+                cls.append('raises_all_by_keyword')
+            if opts and opts['verbose']:
+                cls.append('verbose_wrapper_sees_exception')
+                if len(raised.args) != 1 or '%' in str(raised.args[0]):
+                    cls.append('verbose_wrapper_sees_unusual_exception_args')
+            if 'value' in spec:
+                cls.append('fallback_is_a_sequence')
+                if len(fb) <= 1:
+                    cls.append('fallback_sequence_of_length_0_or_1')
+            if undeclared:
+                cls.append('undeclared_keyword_while_f_raises')
+                cls.append('undeclared_keyword_while_f_raises:kwargs_support_%s_try_layer' % ('above' if stack.index('kwargs_support') < stack.index(name) else 'below'))
     if opts:
         cls.append('parameterised:repeat=%i' % opts['repeat'])
-    return dict(nt=raised is not None or len(stack) >= 2, cls=cls)
+    if len(outcomes) >= 2:
+        cls.append('session')
+        pairs = set(zip(outcomes, outcomes[1:]))
+        if ('raises', 'returns') in pairs:
+            cls.append('returns_after_raising_on_the_same_wrapper')
+        if ('returns', 'raises') in pairs:
+            cls.append('raises_after_returning_on_the_same_wrapper')
+        if ('raises', 'raises') in pairs:
+            cls.append('raises_twice_on_the_same_wrapper')
+    return dict(nt='raises' in outcomes or len(stack) >= 2, cls=sorted(set(cls), key=cls.index))
 
 
 # ----------------------------------------------------------------------------- sub-check: kwargs_support
@@ -1041,12 +1494,21 @@ def run_kws(spec):
             cls.append('undeclared_is_substring_or_superstring_of_declared')
     if nun and any(kv[0] in WRAPPER_WORDS for kv in passed if kv[0] not in declared):
         cls.append('undeclared_named_like_wrapper_parameter')
+    if nun:
+        # order of the steps: the keyword-dropping layer above / below a layer that swallows exceptions or reads the first argument
+        at = stack.index('kwargs_support')
+        if any(KLASS[nm] in ('try_value', 'try_back') for nm in stack[at + 1:]):
+            cls.append('undeclared_keyword_dropped_above_a_try_layer')
+        if any(KLASS[nm] in ('try_value', 'try_back') for nm in stack[:at]):
+            cls.append('undeclared_keyword_passes_a_try_layer_first')
+        if any(KLASS[nm] in ('loops', 'pd2np') for nm in stack[:at]):
+            cls.append('undeclared_keyword_passes_a_first_argument_reader_first')
     return dict(nt=nun >= 1, cls=cls)
 
 
 # ----------------------------------------------------------------------------- sub-check: functions sharing one code object
 
-DEFAULT_POOL = [None, 0, 1, '', 'D', 'E', False, ['list', []], ['list', [1]]]
+DEFAULT_POOL = [None, 0, 1, '', 'D', 'E', False, ['list', []], ['list', [1]], ['tuple', [1, 2]], ['dict', [['a', 1]]], ['tuple', []]]
 
 
 @st.composite
@@ -1164,6 +1626,8 @@ def run_same_code(spec):
         cls.append('default_left_unfilled_on_function_inspected_later')
     if any(not build(v) for dv in dvals for v in dv):
         cls.append('falsy_default')
+    if any(_is_tagged(v, 'tuple', 'dict') for dv in dvals for v in dv):
+        cls.append('tuple_or_dict_default')
     if len(ops) > len(set(op[0] for op in ops)):
         cls.append('same_function_bound_or_called_twice')
     if 'cache' in stack:
@@ -1422,12 +1886,20 @@ POOL = [None, 0, 1, 'a', ['list', [1, 2]], ['dict', [['k', 1]]], -1, -2, M61, M6
         ['list', [['list', [1]]]], ['list', [['tuple', [1]]]],                                                        # 19 20
         ['dict', [['k', ['list', [1]]]]], ['dict', [['k', ['tuple', [1]]]]],                                          # 21 22
         # one dict written in two insertion orders: the SAME argument
-        ['dict', [['k', 1], ['m', 2]]], ['dict', [['m', 2], ['k', 1]]]]                                               # 23 24
+        ['dict', [['k', 1], ['m', 2]]], ['dict', [['m', 2], ['k', 1]]],                                               # 23 24
+        # dicts keyed by numbers only, each in two insertion orders (the same argument); 2**53 + 1 and float(2**53) are different keys
+        ['dict', [[1, 1], [2, 2]]], ['dict', [[2, 2], [1, 1]]],                                                       # 25 26
+        ['dict', [[2 ** 53 + 1, 1], [float(2 ** 53), 2]]], ['dict', [[float(2 ** 53), 2], [2 ** 53 + 1, 1]]]]         # 27 28
+if INCLUDE_MIXED_KEY_DICTS:
+    # keys that cannot be ordered among themselves, in two insertion orders                                             29 30 31 32
+    POOL += [['dict', [[1, 'a'], ['b', 2]]], ['dict', [['b', 2], [1, 'a']]], ['dict', [[None, 1], ['k', 2]]], ['dict', [['k', 2], [None, 1]]]]
 TWIN_IDX = {6: 7, 7: 6, 1: 8, 8: 1, 2: 9, 9: 2, 10: 11, 11: 10}
 SHAPE_GROUPS = {'empty_container_twins': [12, 13, 14], 'list_tuple_twin': [4, 15], 'dict_vs_pairs_twin': [16, 17, 18],
                 'nested_container_twin': [19, 20], 'nested_in_dict_twin': [21, 22]}
 SHAPE_OF = {i: g for g, idx in SHAPE_GROUPS.items() for i in idx}
-SAME_DICT = (23, 24)
+SAME_DICT = {23: 24, 24: 23, 25: 26, 26: 25, 27: 28, 28: 27}
+if INCLUDE_MIXED_KEY_DICTS:
+    SAME_DICT.update({29: 30, 30: 29, 31: 32, 32: 31})
 CACHED = [
     dict(sig=dict(n=2, d=1, va=False, vk=False), stack=['cache']),
     # same signature, separate wrapper made by the same decorator object: caches must not be shared. Returns None / 0 / False / '' / [] / {} depending on its first argument
@@ -1442,7 +1914,7 @@ def _tok(v):
     if isinstance(v, list):
         if v[0] in ('list', 'tuple'):
             return (v[0],) + tuple(_tok(x) for x in v[1])
-        return ('dict',) + tuple(sorted((k, _tok(x)) for k, x in v[1]))
+        return ('dict',) + tuple(ksorted([((type(k).__name__, k), _tok(x)) for k, x in v[1]]))
     return (type(v).__name__, v)
 
 
@@ -1455,7 +1927,7 @@ class CacheModel(object):
         'twin': dict(j=st.integers(0, 40)),
         'same_on_other': dict(j=st.integers(0, 40)),
         'collide': dict(j=st.integers(0, 40), which=st.integers(0, 5)),
-        'retype': dict(j=st.integers(0, 40), which=st.integers(0, 5), step=st.integers(1, 2)),
+        'retype': dict(j=st.integers(0, 40), which=st.integers(0, 9), step=st.integers(1, 2)),
     }
     PRE = {'recall': lambda m: len(m.history) > 0, 'twin': lambda m: len(m.history) > 0, 'same_on_other': lambda m: len(m.history) > 0,
            'collide': lambda m: len(m.history) > 0, 'retype': lambda m: len(m.history) > 0}
@@ -1526,9 +1998,14 @@ class CacheModel(object):
                         self.flags.add(SHAPE_OF[i] + '_in_history')
                         if SHAPE_OF[i] == 'dict_vs_pairs_twin' and 16 not in (list(args_i) + [x for _, x in kwargs_i] + h[1] + [x for _, x in h[2]]):
                             self.flags.add('pairs_list_vs_pairs_tuple_in_history')
-            if h[0] == fn and h[3] == key and any(a in SAME_DICT and b in SAME_DICT and a != b
-                                                  for a, b in zip(list(args_i) + [i for _, i in sorted(kwargs_i)], h[1] + [i for _, i in sorted(h[2])])):
-                self.flags.add('hit_with_dict_in_other_insertion_order')
+            if h[0] == fn and h[3] == key:
+                for a, b in zip(list(args_i) + [i for _, i in sorted(kwargs_i)], h[1] + [i for _, i in sorted(h[2])]):
+                    if SAME_DICT.get(a) == b:
+                        self.flags.add('hit_with_dict_in_other_insertion_order')
+                        if number_keyed(POOL[a]):
+                            self.flags.add('hit_with_number_keyed_dict_in_other_insertion_order')
+                        elif a >= 29:
+                            self.flags.add('hit_with_mixed_key_dict_in_other_insertion_order')
         for h in self.history:
             if h[0] == fn and h[3] != key and h[5] == ckey:
                 self.flags.add('hash_colliding_arguments')
@@ -1601,11 +2078,16 @@ class CacheModel(object):
 
         def nxt(v):
             if v in SAME_DICT:
-                return SAME_DICT[1 - SAME_DICT.index(v)]
+                return SAME_DICT[v]
             grp = SHAPE_GROUPS[SHAPE_OF[v]]
             return grp[(grp.index(v) + step) % len(grp)]
         slots = [('a', i) for i, v in enumerate(args_i) if ok(v)] + [('k', i) for i, (k, v) in enumerate(kwargs_i) if ok(v)]
-        plant = [12, 4, 16, 19, 21, 23][which]
+        shaped = [('a', i) for i, v in enumerate(args_i) if v in SHAPE_OF] + [('k', i) for i, (k, v) in enumerate(kwargs_i) if v in SHAPE_OF]
+        if shaped and step == 2:
+            slots = shaped      # a container of another type rather than the same dict in another insertion order
+        plant = ([12, 4, 16, 19, 21, 23, 25, 27] + ([29, 31] if INCLUDE_MIXED_KEY_DICTS else [4, 15]))[which]
+        if which >= 8 and (args_i or kwargs_i) and not any(v in (4, 15) for v in args_i + [x for _, x in kwargs_i]):
+            slots = []               # plant [1,2] / (1,2) even if another container could be re-typed
         if slots:
             kind, i = slots[which % len(slots)]
             if kind == 'a':
@@ -1639,7 +2121,7 @@ def _tok_bound(exp):
         if isinstance(x, (list, tuple)):
             return (type(x).__name__,) + tuple(t(i) for i in x)
         if isinstance(x, dict):
-            return ('dict',) + tuple(sorted((k, t(v)) for k, v in x.items()))
+            return ('dict',) + tuple(ksorted([((type(k).__name__, k), t(v)) for k, v in x.items()]))
         return (type(x).__name__, x)
     return t([exp['p'], exp['va'], exp['vk']])
 
@@ -1651,14 +2133,30 @@ SUBS = [
         rule='random signature, random valid call with values from ints/strings/None/lists/dicts, stack of 1-3 of the 11 decorators (repeats allowed), '
              'non-raising f; result == own binding model == direct call, getargspec fields == inspect.getfullargspec(f) before and after the call, '
              'getcallargs / call_with_callargs through the stack; in half the cases the same decorator objects then wrap a second function with '
-             'another signature. A third of the signatures use names that are prefixes of one another (a, ab, abc, abcd), a third defaults None/0/\'\'/False; **vk functions also get keywords spelled like wrapper parameters (function, value, exc, cache, types, repeat) and the ORDER in which extra keywords reach f is part of its report; class decorators are applied as D(f) or D()(f). In ~30% of the cases f returns a constant None / 0 / False / '' / [] / {} instead of its report; with a cache layer anywhere in the stack the same call is made twice: f evaluated exactly once (counted by side channel), same result. non-trivial = stack of >= 2 decorators, or >= 1 keyword argument and >= 1 default relied on',
+             'another signature. A third of the signatures use names that are prefixes of one another (a, ab, abc, abcd), a third defaults None/0/\'\'/False; **vk functions also get keywords spelled like wrapper parameters (function, value, exc, cache, types, repeat) and the ORDER in which extra keywords reach f is part of its report; class decorators are applied as D(f) or D()(f). In ~30% of the cases f returns a constant None / 0 / False / '' / [] / {} instead of its report; with a cache layer anywhere in the stack the same call is made twice: f evaluated exactly once (counted by side channel), same result, and once more with every dict argument written in the reverse insertion order (the same arguments: no evaluation; dicts keyed by numbers only included). A fifth of the signatures with defaults have container defaults; half of the pd2np layers are pd2np(exc = name / list of 0-2 names); in half of the D()(f) spellings ONE decorator object per class is applied to both functions (both wrapped before either is called); getcallargs\' dict is handed to call_with_callargs twice. non-trivial = stack of >= 2 decorators, or >= 1 keyword argument and >= 1 default relied on',
         floor=0.5, class_floors={'depth=3': 0.15, 'kw+default': 0.07, 'second_function_same_decorators': 0.15, 'has:cache_func': 0.15, 'has:loops': 0.07,
                                  'has:pd2np': 0.12, 'has:kwargs_support': 0.12, 'has:try_back': 0.15, 'has:try_value': 0.15,
                                  'f_returns_None': 0.08, 'f_returns_falsy': 0.08, 'cached_result_is_None': 0.03, 'cached_result_is_falsy': 0.03,
                                  'names_prefixes_of_one_another': 0.1, 'two_step_spelling': 0.1, 'keyword_named_like_wrapper_parameter': 0.04, 'keyword_named_function': 0.01,
                                  'hash_colliding_arguments': 0.15, 'container_twin_arguments': 0.1, 'empty_container_twins': 0.01, 'list_tuple_twin': 0.03,
                                  'dict_vs_pairs_twin': 0.015, 'nested_container_twin': 0.01,
-                                 'two_extra_keywords_in_order': 0.06, 'falsy_default_relied_on': 0.025}),
+                                 'two_extra_keywords_in_order': 0.06, 'falsy_default_relied_on': 0.025,
+                                 'container_default': 0.04, 'container_default_relied_on': 0.015, 'pd2np_exc': 0.025, 'pd2np_excluded_keyword_passed': 0.005, 'pd2np_exc:string': 0.004,
+                                 'pd2np_exc:list_of_0': 0.007, 'pd2np_exc:list_of_1': 0.005, 'pd2np_exc:list_of_2': 0.006, 'one_decorator_object_on_two_functions': 0.007,
+                                 'dict_argument_in_other_insertion_order': 0.03, 'number_keyed_dict_in_other_insertion_order': 0.02}),
+    Sub('session', lambda tier: s_session(), run_session, quick=1200, thorough=20000,
+        rule='ONE function, ONE wrapper object (stack of 1-3 decorators, non-raising f), 2-4 calls on it: the first random, the others derived from an earlier one as its prefix (last extra positional / '
+             'an extra keyword / a defaulted parameter left out), extension, permutation of the keywords, the same binding through another split, the same shape with other values, the same call, or a fresh call; '
+             'every call is judged by the single-call oracle (own binding model == direct call), getargspec and getcallargs / call_with_callargs (the dict handed over twice) are interleaved; with a cache layer '
+             'that sees the arguments as passed f must be evaluated once per distinct combination over the whole session. In two thirds of the cases the caller\'s argument containers are built ONCE: the same '
+             'list / dict object is passed in every call and every place where that value occurs. A fifth of the signatures with defaults have containers as defaults (tuple as long as the parameter list, '
+             'dict keyed like the parameters, empty, one element). non-trivial = at least two different calls',
+        floor=0.25, class_floors={'calls=3': 0.1, 'calls=4': 0.08, 'kind:prefix': 0.1, 'kind:extension': 0.08, 'kind:permuted': 0.07, 'kind:resplit': 0.04, 'kind:values': 0.035,
+                                  'kind:same': 0.13, 'kind:fresh': 0.04, 'default_relied_on_after_a_call_that_supplied_it': 0.04,
+                                  'container_default_relied_on_after_a_call_that_supplied_it': 0.004, 'fewer_varargs_than_an_earlier_call': 0.018,
+                                  'fewer_extra_keywords_than_an_earlier_call': 0.035, 'argument_objects_shared_between_calls': 0.16, 'same_object_passed_twice': 0.045,
+                                  'evaluations_counted': 0.15, 'binding_between_calls': 0.17, 'container_default': 0.03, 'has:cache_func': 0.15, 'has:loops': 0.055,
+                                  'has:pd2np': 0.055, 'has:kwargs_support': 0.06, 'has:try_back': 0.06, 'has:try_value': 0.06, 'depth=3': 0.04}),
     Sub('rewrap', lambda tier: s_rewrap(include_known_defect=REWRAP_DEEP), run_rewrap, quick=1500, thorough=20000,
         rule='stack of 1-3 decorators of distinct classes built on f, then wrapped again with a decorator of a class already in the stack (possibly another '
              'try_* variant); the result must have the layers and parameters of wrapping once, be == to it (dict equality of fresh wrappers), report f\'s '
@@ -1670,26 +2168,34 @@ SUBS = [
         rule='one try_* layer (try_none/nan/zero/true/false/list/back), alone or with 1-2 transparent layers (kwargs_support, cache, loop, pd2np) around it; '
              'f is told to raise one of 12 Exception classes (built with no argument, a message, 2-3 arguments, a message holding % signs, or one tuple) through any positional / keyword / *va / **vk slot, or not told; half of the try_value layers are spelled try_value(value=.., verbose=True/False/None, repeat=0/1/2)(f); the wrapper must return f\'s '
              'result when f returns and the fallback (try_back: the first argument; try_list: a fresh list every time) when f raises. '
-             'non-trivial = f raises, or stack >= 2',
-        floor=0.4, class_floors={'raises': 0.3, 'returns': 0.2, 'try_back': 0.15, 'try_list': 0.05, 'raises_all_by_keyword': 0.03, 'verbose_wrapper_sees_exception': 0.05, 'verbose_wrapper_sees_unusual_exception_args': 0.02, 'exception_args=0': 0.03, 'exception_args=2': 0.03}),
+             'A third of the parameterised layers have a sequence as fallback value ([7], (0,), (), a list / tuple as long as the call\'s arguments, a dict keyed like the parameters), returned as a fresh copy; '
+             'with a kwargs_support layer in the stack (above or below the try layer) 1-2 keywords f does not declare travel with the call; in 40% of the cases 1-3 further calls follow on the SAME wrapper '
+             '(the same call, the order to raise taken out / put in / changed), each judged by the single-call oracle. non-trivial = f raises, or stack >= 2',
+        floor=0.4, class_floors={'raises': 0.3, 'returns': 0.2, 'try_back': 0.15, 'try_list': 0.05, 'raises_all_by_keyword': 0.03, 'verbose_wrapper_sees_exception': 0.05, 'verbose_wrapper_sees_unusual_exception_args': 0.02, 'exception_args=0': 0.03, 'exception_args=2': 0.03,
+                                 'session': 0.13, 'returns_after_raising_on_the_same_wrapper': 0.06, 'raises_after_returning_on_the_same_wrapper': 0.055, 'raises_twice_on_the_same_wrapper': 0.055,
+                                 'fallback_is_a_sequence': 0.017, 'fallback_sequence_of_length_0_or_1': 0.013, 'undeclared_keyword_while_f_raises': 0.015,
+                                 'undeclared_keyword_while_f_raises:kwargs_support_above_try_layer': 0.007, 'undeclared_keyword_while_f_raises:kwargs_support_below_try_layer': 0.007}),
     Sub('kwargs_support', lambda tier: s_kws(), run_kws, quick=2000, thorough=30000,
         rule='kwargs_support (alone or with 1-2 other decorators above/below) on functions without **vk: valid call plus 1-3 undeclared keywords (x, y, z, '
              'va, vk, function, e, value, exc, cache, names of parameters the function does not have, sub-/super-strings of declared names) in any order -> result of the call without them; a declared keyword that '
-             'is also given positionally must still reach f (TypeError); functions with **vk only with declared keywords. non-trivial = >= 1 undeclared keyword',
+             'is also given positionally must still reach f (TypeError); functions with **vk only with declared keywords; the position of kwargs_support relative to try layers and first-argument readers (loops, pd2np) is recorded. non-trivial = >= 1 undeclared keyword',
         floor=0.3, class_floors={'duplicate': 0.05, 'declared+undeclared_keywords': 0.1, 'undeclared_named_like_varargs': 0.05,
-                                 'undeclared_is_substring_or_superstring_of_declared': 0.03, 'undeclared_named_like_wrapper_parameter': 0.04}),
+                                 'undeclared_is_substring_or_superstring_of_declared': 0.03, 'undeclared_named_like_wrapper_parameter': 0.04,
+                                 'undeclared_keyword_dropped_above_a_try_layer': 0.015, 'undeclared_keyword_passes_a_try_layer_first': 0.025,
+                                 'undeclared_keyword_passes_a_first_argument_reader_first': 0.006}),
     MachineSub('cache_history', CacheModel, quick=(400, 30), thorough=(3000, 40),
                rule='histories of <= 30/40 calls on four cached functions (two with the same signature and decorated through one decorator object d = cache_func(), one wrapped twice, one all-defaults with **vk); arguments '
                     'from a 12-element pool (None, 0, 1, "a", [1,2], {"k":1} and the hash twins -1, -2, 2**61-1, 2**61, [-1,3], [-2,3]) in random positional/keyword spellings, re-issued earlier calls (keywords reordered, '
                     'fresh equal containers), the same binding through another split, the same call on the twin function, an earlier call with one argument replaced by its hash twin (a distinct key); model: per function a dict keyed by '
                     '(positional values, sorted keyword items) as passed; every call must evaluate f once if the key is new and not at all otherwise and return '
-                    'the first result. Three of the four functions return None / 0 / False / '' / [] / {} depending on their first argument (else the full report with its evaluation number); evaluations are counted through a list closed over by f, never through the result. non-trivial = a key repeated after an intervening call with another key on that function',
+                    'the first result. Three of the four functions return None / 0 / False / '' / [] / {} depending on their first argument (else the full report with its evaluation number); evaluations are counted through a list closed over by f, never through the result. The pool also holds containers of equal content and different type, and dicts in two insertion orders (the same argument) - keyed by strings and keyed by numbers only ({1:1,2:2}; {2**53+1:1, 2.0**53:2}). non-trivial = a key repeated after an intervening call with another key on that function',
                floor=0.3, class_floors={'hit_after_other_key': 0.3, 'hit_with_keywords_reordered': 0.05, 'hit_with_container_argument': 0.1,
                                         'same_arguments_on_two_functions': 0.1, 'same_binding_other_split': 0.1,
                                         'cached_result_is_None': 0.07, 'cached_result_is_falsy': 0.3, 'cached_result_is_report': 0.3,
                                         'hash_colliding_arguments': 0.3, 'container_twin_in_history': 0.3,
                                         'empty_container_twins_in_history': 0.05, 'list_tuple_twin_in_history': 0.05, 'dict_vs_pairs_twin_in_history': 0.05,
-                                        'nested_container_twin_in_history': 0.03, 'hit_with_dict_in_other_insertion_order': 0.03}),
+                                        'nested_container_twin_in_history': 0.03, 'hit_with_dict_in_other_insertion_order': 0.03,
+                                        'hit_with_number_keyed_dict_in_other_insertion_order': 0.03}),
     Sub('same_code', lambda tier: s_same_code(), run_same_code, quick=800, thorough=15000,
         rule='2-3 functions produced by ONE factory (def or lambda: they share one code object) with different default values and different closures, '
              'bare or under 1-2 decorators; 3-8 operations in random interleaved order: getargspec, getcallargs + call_with_callargs, or a call, each judged '
@@ -1697,7 +2203,7 @@ SUBS = [
              'non-trivial = a call / binding that leaves a defaulted parameter unfilled on a function whose defaults differ from the first-inspected one',
         floor=0.3, class_floors={'default_left_unfilled_on_function_inspected_later': 0.3, 'form=lambda': 0.2, 'form=def': 0.2, 'interleaved': 0.3,
                                  'falsy_default': 0.3, 'same_function_bound_or_called_twice': 0.5,
-                                 'cached': 0.1, 'container_twins_in_cached_history': 0.03}),
+                                 'cached': 0.1, 'container_twins_in_cached_history': 0.03, 'tuple_or_dict_default': 0.2}),
     EnumSub('large', enum_large, run_large, chunks=8,
         rule='size thresholds (enumerated completely in both tiers): (a) one cached function given N in {64,65,100,128,129,200,256,300} distinct argument combinations (positional ints, keyword, '
              '(0,i,0) = same length/first/last, positional+keyword, lists, and hash-colliding families: ..,-1 / ..,-2 positional and keyword, i / i+2**61-1, [-1,i] / [-2,i]), then all of them again in the same / reversed / rotated order: N evaluations '
@@ -1711,3 +2217,10 @@ SUBS = [
                  'getcallargs/call_with_callargs through the wrapper, W(W(f)) one layer with the same result; cache(f) additionally with f returning each of None / 0 / False / \'\' / [] / {}: two identical calls, one evaluation. '
                  'non-trivial = >= 1 parameter passed by keyword and >= 1 default relied on'),
 ]
+
+if INCLUDE_MIXED_KEY_DICTS:
+    for _sub in SUBS:
+        if _sub.name == 'transparent':
+            _sub.class_floors['mixed_key_dict_in_other_insertion_order'] = 0.01
+        if _sub.name == 'cache_history':
+            _sub.class_floors['hit_with_mixed_key_dict_in_other_insertion_order'] = 0.05
